@@ -67,6 +67,7 @@ class Session:
         self.events = collections.deque(maxlen=60)
         self.violations: list[dict] = []
         self._viol_keys = collections.Counter()
+        self._stored_keys = collections.Counter()
         self.oracle_errors: list[str] = []
         self.case_errors: list[str] = []
         self.sig_counts = collections.Counter()  # class signature -> evaluations
@@ -111,7 +112,7 @@ class Session:
         m.violated += 1
         k = (monitor, key if key is not None else what)
         self._viol_keys[k] += 1
-        if self._viol_keys[k] <= self.MAX_VIOLATIONS_PER_KEY and len(self.violations) < self.MAX_VIOLATIONS:
+        if self._viol_keys[k] <= 60 and len(self.violations) < self.MAX_VIOLATIONS:
             try:
                 d = detail() if callable(detail) else detail
             except Exception as e:  # pragma: no cover
@@ -122,11 +123,19 @@ class Session:
                 "what": what,
                 "key": key if key is not None else what,
                 "detail": codec.readable(d, maxlen=64),
-                "case": self.current_case.encoded() if hasattr(self.current_case, "encoded") else self.current_case,
+                "case": None,
                 "case_info": self.current_case_info,
             }
-            self.violations.append(v)
-            self.events.append({"monitor": monitor, "verdict": "violated", "what": what})
+            # Instances of a listed known finding must not crowd out other violations that share the same key:
+            # the per-key cap is applied separately to each known-finding class (and to "not known").
+            from . import findings
+
+            k2 = k + (findings.classify(self.pid, v),)
+            self._stored_keys[k2] += 1
+            if self._stored_keys[k2] <= self.MAX_VIOLATIONS_PER_KEY:
+                v["case"] = self.current_case.encoded() if hasattr(self.current_case, "encoded") else self.current_case
+                self.violations.append(v)
+                self.events.append({"monitor": monitor, "verdict": "violated", "what": what})
         return False
 
     def held_bulk(self, monitor: str, n: int, sig=None):
